@@ -32,7 +32,10 @@ def run(rep, idx, tier):
     for s in c.t.sigs.values():
         S = ('sig', s.id, s.name)
         ds = c.drivers_of(S)
-        if ds and all(c.norm(d.value) == c.parse("Cat(x.cyc for x in INTRS)", {"INTRS": r.INTRS}) for d in ds):
+        elem = c.norm(('sub', r.INTRS, r.k))
+        want_elt = ir.subst(c.norm(('attr', r.intr, 'cyc')), lambda x: ('bv', '%0') if x == elem else None)
+        want_vec = ('call', ('name', 'Cat'), (('gen', 'gen', want_elt, ((('bv', '%0'), r.INTRS, ()),)),), ())
+        if ds and all(c.norm(d.value) in (c.parse("Cat(x.cyc for x in INTRS)", {"INTRS": r.INTRS}), want_vec) for d in ds):
             REQ = S
             ok = len(ds) == 1 and ds[0].domain == "comb" and not ds[0].dsl and not ds[0].gen
             rep.check(ok, "C09.2", site, "request bit k == cyc of initiator k (Cat over the list in order), always",
@@ -40,7 +43,7 @@ def run(rep, idx, tier):
             rep.check(c.norm(s.ctor) == c.parse("Signal(N)", {"N": N}), "C09.2", site, "one request bit per initiator",
                       f"created as {ir.show(c.norm(s.ctor))}")
     if REQ is None:
-        rep.bad("C09.2", site, "request vector", "no local signal collects the initiators' cyc lines in list order")
+        rep.unk("C09.2", site, "request vector", "no local signal was recognised as the list-ordered collection of the initiators' cyc lines")
         return
 
     # ---- segments -----------------------------------------------------------------------------
